@@ -295,6 +295,15 @@ def run(idx, rep, tier):
                            detail="" if not big else "too-large", locs=[idx.loc(f.module, n)])
     if not n_recip:
         rep.note("finite-reciprocal: no reciprocal of a guarded denominator on this tree")
+    # ---- the caller's numbers reach the loop as they are: `max_iters or 1000` turns an explicit 0 into the default
+    n_f = 0
+    for f in fns:
+        for node_, p_, c_ in lp.falsy_numeric_defaults(f):
+            n_f += 1
+            rep.refuted("loop-cap", f"{f.short}:{p_}-or-default", f"`{ast.unparse(node_)}`: `or` replaces every falsy value, so an explicit {p_}=0 silently becomes {c_} "
+                        f"(max_iters=0 must return the initial guess; write `{p_} if {p_} is not None else {c_}`)", detail="falsy-zero", locs=[idx.loc(f.module, node_)])
+    if not n_f:
+        rep.proved("loop-cap", "cg:numeric-defaults", f"no `parameter or <number>` default in the {len(fns)} functions of the CG path: an explicit 0 stays 0")
     # ---- the monitored loop runner only observes: it must not add stopping criteria of its own
     for f_, ok_, text_, node_ in lp.runner_transparency(idx):
         rep.decide(ok_, "runner-transparency", "while_loop_winfo", text_, detail="" if ok_ else "extra-exit", locs=[idx.loc(f_.module, node_)])
